@@ -18,8 +18,9 @@ RULE = ("a case is (composite type built through the pydsdl constructors, value,
         "decoded value reproduces the bytes, 8*len within min/max and residues mod 64 of the (inner) bit length set, relaxed form gives the "
         "same bytes, int<->integral-float / 0-1-for-bool input coercions (implementation alone, not modelled) give the same bytes; non-trivial = the type has >= 2 value-carrying leaves or a nested composite/array and serialization succeeded; "
         "distinct = by hash of the canonical case")
-THEOREMS_NOTE = ("C06_* theorems: the model's writer/reader refine the bit-list specification, round trip, produced length in the bit length "
-                 "set, integer casts, defaults; the model's bytes/values are therefore the only admissible ones")
+THEOREMS_NOTE = ("C06_wire_spec + C06_wire_unique fix the bytes (the Specification's bit-list encoding spec_enc, packed LSB first); C06_roundtrip / "
+                 "C06_roundtrip_exact fix the decoded value (canon t v; v itself for exact values); C06_length_in_bls, C06_cast_*, C06_defaults_*; "
+                 "C06_writer_refines / C06_reader_refines tie the byte-buffer writer/reader (fast + slow path) to bit lists")
 TRUSTED = ["CPython struct.pack/unpack ('<e', '<f', '<d') and the UTF-8 codec are exercised through the implementation only; the model's "
            "float narrowing (round to nearest even) and UTF-8 validity predicate are compared with them bit-exactly on every case",
            "Python-side input coercions (float for an integer field, int for a float field, str for byte arrays other than via bytes) are not modelled"]
@@ -1059,11 +1060,6 @@ def default_json(t):
     if k == "delim":
         return default_json(t[1])
     raise ValueError(k)
-
-
-def project_value(t, v, t2):
-    """Value for the shrunk type t2 obtained from value v of type t when t2 is a field type of t (or None)."""
-    return None
 
 
 def shrink(case):
